@@ -41,9 +41,10 @@ CORPUS = [
 
 
 def build_cases(ctx, families=None):
-    n = 700 if ctx.tier == "quick" else 12000
+    n = 550 if ctx.tier == "quick" else 12000
     # every program works on its own key namespace (the programs of a batch share one server)
     progs = [G.Program("corpus%d" % i, [[a.replace(b"corpus:", b"q%d:" % i) for a in cmd] for cmd in c]) for i, c in enumerate(CORPUS)]
+    progs += G.alias_programs(ctx.seed, ctx.tier)
     progs += G.gen_programs(ctx.seed, n, families)
     return progs
 
@@ -269,6 +270,12 @@ def write_obligation(d):
         why = "; ".join("%s:%s %s: %s %s" % (w["file"], w["line"], w["func"], w["what"], w.get("why", "")) for w in (facts.get("encoder_issues") or [])[:4]) or \
             "no ToBytes method found in package resp"
         ebroken = "a reply encoder (resp ToBytes) may return memory that is retained or reused after it returns (premise: a reply's bytes are its own until written): " + why
+    if not facts.get("commands_ok"):
+        why = "; ".join("%s:%s %s: %s %s" % (w["file"], w["line"], w["func"], w["what"], w.get("why", "")) for w in (facts.get("command_issues") or [])[:4]) or \
+            "no ToCommand method found in package resp"
+        ebroken = (ebroken + " ALSO: " if ebroken else "") + \
+            "the arguments handed to the executors (resp ToCommand) may share spare capacity (premise: every argument has its own allocation or a clipped capacity): " + why
+        facts["commands_broken_only"] = bool(facts.get("encoders_ok"))
     return facts, wbroken, ebroken
 
 
@@ -543,7 +550,7 @@ def run(ctx, families=None):
                 ctxt = confirm_conc(d, st, ctx.seed, rounds, CP, ctxt) if ctxt else None
                 if conc["txt"] and not ctxt:
                     st.setdefault("unreproduced_discrepancies", []).append(dict(case="concurrent-readers", mismatch=conc["txt"][:300], reproduced=False))
-                if ctxt is None and ebroken:
+                if ctxt is None and ebroken and not (wfacts or {}).get("commands_broken_only"):
                     # the structural premise about the encoders is broken: look harder for the failing input
                     rounds = 8 if ctx.tier == "quick" else 20
                     t1, info1 = conc_scenario(d, st, ctx.seed, rounds, CP, "conclong")
@@ -603,7 +610,8 @@ def run(ctx, families=None):
         searched = None
         if not (broken or berr):
             searched = ("slow-reader scenario with pauses of %d ms and a longer one found no failing input" % T) if wbroken else \
-                "concurrent big-reply scenario with %d and with more rounds found no failing input" % CR
+                ("the aliasing family of the program batch (store several arguments, grow an earlier one in place, read all) found no failing input"
+                 if (wfacts or {}).get("commands_broken_only") else "concurrent big-reply scenario with %d and with more rounds found no failing input" % CR)
         lib.violation(PID, dict(kind="tie-broken", what=broken or berr or wbroken or ebroken, searched=searched,
                                 writecheck=wfacts if (wbroken or ebroken) else None), found_input=False)
         ctx.violations += 1
@@ -612,7 +620,9 @@ def run(ctx, families=None):
         if kf["kind"] == "open":
             print("KNOWN-FINDING: property=%s %s %s" % (PID, kf["id"], kf["text"]))
     shapes, kinds, cmds, crlf_bulks, err_lines = stats(trace)
-    cov["obligations"] += 2          # the structural premises (harness_resp writecheck): reply writes, reply encoders
+    cov["obligations"] += 3          # the structural premises (harness_resp writecheck): reply writes, reply encoders, command arguments
+    if wfacts and wfacts.get("commands_ok") and not broken:
+        cov["discharged"] += 1
     if wfacts and wfacts.get("writes_ok") and not broken:
         cov["discharged"] += 1
     if wfacts and wfacts.get("encoders_ok") and not broken:
@@ -624,13 +634,15 @@ def run(ctx, families=None):
         evaluations=sum(kinds.values()), programs=len(progs), distinct_nontrivial=len(shapes),
         rule=("seeded pipelined programs (1-24 commands; families: %s) over real TCP, written in random chunkings (whole, single bytes, random cuts, cuts inside "
               "CRLF and inside lengths); keys and payloads drawn from pools that always contain CR, LF, CRLF, + - $ : *, NUL, 0xff and the empty string; "
-              "plus %d hand-written programs (unknown commands, CR/LF in the command name, every wrong arity, the empty command); evaluations = replies "
+              "plus the aliasing family (every store kind x every in-place mutator of an earlier stored item, then reads of all keys) and %d hand-written programs (unknown commands, CR/LF in the command name, every wrong arity, the empty command); evaluations = replies "
               "compared; distinct_nontrivial = distinct (command, arity, reply kind) triples observed") % (", ".join(sorted((families or G.FAMILIES))), len(CORPUS)),
         commands={k: v for k, v in sorted(cmds.items())}, reply_kinds=dict(kinds),
         bulk_payloads_with_cr_or_lf_decoded=crlf_bulks, error_replies=err_lines, server_starts=st["server_starts"],
         unreproduced_discrepancies=st.get("unreproduced_discrepancies", []),
         slow_reader=dict(slow["info"], pause_ms=T, note="SET big; GET big + PING in one write; client silent for pause_ms; reply bytes decoded by the extracted decode_stream: [bulk = stored value, +PONG]"),
         concurrent_readers=dict(conc["info"], note="slow readers of a big array reply + concurrent big array replies + ordinary programs on one server; all byte streams decoded by the extracted decoder"),
+        command_obligation=dict(ok=bool(wfacts and wfacts.get("commands_ok")), functions=(wfacts or {}).get("command_funcs") or [], issues=(wfacts or {}).get("command_issues") or []),
+        aliasing_programs=sum(1 for p in progs if "aliasing" in p.families),
         encoder_obligation=dict(ok=bool(wfacts and wfacts.get("encoders_ok")), functions=(wfacts or {}).get("encoder_funcs") or [], issues=(wfacts or {}).get("encoder_issues") or []),
         write_obligation=dict(ok=bool(wfacts and wfacts.get("writes_ok")), shape=(wfacts or {}).get("shape"), writes=len((wfacts or {}).get("writes") or []),
                               deadlines_in_server=(wfacts or {}).get("deadlines_in_server") or [], deadlines_elsewhere=(wfacts or {}).get("deadlines_elsewhere") or []),
